@@ -922,6 +922,7 @@ class Interp:
         if use_model:
             for rx, h in self._hook_rx:
                 if rx.search(key):
+                    self.hook_hits = getattr(self, "hook_hits", 0) + 1
                     return h(self, key, args, callee)
         inst = self.ins.get(key)
         if inst is None:
